@@ -53,8 +53,23 @@ def main():
         print("MACHINERY-FAILURE property=%s: %s" % (prop, e))
         ctx.finish(machinery_failed=True)
         return 2
-    except Exception:
+    except Exception as e:
         traceback.print_exc()
+        # An exception that escapes from library code on an input the driver feeds unguarded (inputs of the property's domain that
+        # the unchanged library handles) is the library failing on that input, not a failure of the machinery.
+        frames = traceback.extract_tb(e.__traceback__)
+        from .core import REPO
+        lib = os.path.realpath(os.path.join(REPO, "buidl")) + os.sep
+        last = frames[-1] if frames else None
+        if last is not None and os.path.realpath(last.filename).startswith(lib) and os.sep + "test" + os.sep not in last.filename:
+            where = "%s.%s" % (os.path.splitext(os.path.basename(last.filename))[0], last.name)
+            caller = next((f for f in reversed(frames) if not os.path.realpath(f.filename).startswith(lib)), None)
+            ctx.violation("library-raises:%s:%s" % (type(e).__name__, where),
+                          "the library raised %s(%s) in %s on an input of the property's domain (driver line: %s:%s %s)"
+                          % (type(e).__name__, str(e)[:200], where, os.path.basename(caller.filename) if caller else "?", caller.lineno if caller else "?",
+                             (caller.line or "")[:160] if caller else ""),
+                          {"kind": "library-exception", "traceback": traceback.format_exc()[-3000:]})
+            return ctx.finish()
         print("MACHINERY-FAILURE property=%s (driver exception)" % prop)
         ctx.finish(machinery_failed=True)
         return 2
